@@ -18,16 +18,35 @@ def describe(tier):
         "rule": "for every C10 input: bytes written by IndxIO.save == bytes of an independent encoder written from the class docstring; the "
         "independent decoder recovers the input from the saved bytes; IndxIO.load recovers the input from independently encoded bytes for every "
         "index word size {1,2,4,8} >= needed and every row-id word size {1,2,4,8} the values permit (and both header conventions for the "
-        "dimension byte of an entry-less file). Size field: sparse stand-in arrays (len/dtype/tofile=seek) with row-id totals %r and %r: the 8-byte "
-        "size word must equal final file position - 16 and save must not raise. Non-trivial as in C10, or an alternative word size was loaded." % (BIG_SINGLE, BIG_MULTI),
+        "dimension byte of an entry-less file). Narrow row-id words: independently encoded files with 1- and 2-byte row-id words whose total row-id count exceeds 255 / 65535 (%r). Size field: sparse stand-in arrays (len/dtype/tofile=seek) with row-id totals %r and %r: the 8-byte "
+        "size word must equal final file position - 16 and save must not raise. Non-trivial as in C10, or an alternative word size was loaded." % (NARROW, BIG_SINGLE, BIG_MULTI),
         "bounds": {"row_id_totals": [str(x) for x in BIG_SINGLE] + [str(sum(x)) for x in BIG_MULTI]},
         "exhaustive": True,
         "assumptions": ["the class docstring of IndxIO is the format specification", "for totals >= 2^30 only the size arithmetic is exercised (no row-id data is materialised)"],
     }
 
 
+NARROW = [(1, [200, 100]), (1, [255, 1]), (1, [128, 128]), (1, [100, 100, 100]), (1, [0, 255, 3]), (2, [40000, 30000]), (2, [65535, 1]), (2, [32768, 32768, 5])]
+
+
 def blocks(tier):
-    return indx.family_blocks(tier) + [("bigsize", {"tier": tier})]
+    return indx.family_blocks(tier) + [("bigsize", {"tier": tier})] + [("narrow", {"tier": tier, "i": i}) for i in range(len(NARROW))]
+
+
+def check_narrow(rw, lengths, acc):
+    """Independently encoded file whose row-id words are 1 or 2 bytes wide and whose row-id COUNT in total exceeds what one such word holds."""
+    keys = [(i + 1, 0) for i in range(len(lengths))]
+    arrays = [list(range(n)) for n in lengths]
+    case = {"rowid_word": rw, "lengths": lengths}
+    blob = indx.encode(keys, arrays, 0, rowid_word=rw)
+    try:
+        out, common_l, dt, kinds, raw = indx.lib_load_bytes(blob)
+    except Exception as e:  # noqa
+        acc.violation("load-independent:raised", case, repr(e))
+        return
+    msg = indx.check_loaded(out, common_l, kinds, keys, arrays, 0)
+    if msg:
+        acc.violation("load-independent:differs", case, msg)
 
 
 def check_case(keys, arrays, common, acc):
@@ -121,6 +140,11 @@ def check_big(lengths, acc):
 
 
 def run_block(family, p, acc):
+    if family == "narrow":
+        rw, lengths = NARROW[p["i"]]
+        check_narrow(rw, lengths, acc)
+        acc.case(("narrow", rw, tuple(lengths)), nontrivial=True, outcome=("narrow", rw), sample={"rowid_word": rw, "row_id_lengths": lengths})
+        return
     if family == "bigsize":
         for n in BIG_SINGLE:
             check_big([n], acc)
@@ -142,7 +166,9 @@ def replay(case, site=None):
     from ..core import Acc
 
     acc = Acc(ID, [], stop_at_first=False)
-    if "lengths" in case:
+    if "rowid_word" in case and "lengths" in case:
+        check_narrow(case["rowid_word"], case["lengths"], acc)
+    elif "lengths" in case:
         check_big([int(x) for x in case["lengths"]], acc)
     else:
         check_case([tuple(k) for k in case["keys"]], case["arrays"], case["common"], acc)
